@@ -2,6 +2,7 @@
 use vstd::prelude::*;
 verus! {
 //@INCLUDE prelude_object.rs
+//@INCLUDE opcodes.rs
 //@INCLUDE prelude_vm.rs
 
 impl Frame {
